@@ -1,110 +1,9 @@
 /-
-C10 — unpacking a successful run of the `Subset` model into the facts the property theorems use.
+C10 — meaning of the translated tables (cmap, kerning pairs, component references).
 -/
 import SfntV.Proofs.Subset
 
 namespace SfntV.Subset
-
-/-- the result record as a function of the two subsetter states -/
-def assemble (f : Font) (s1 s2 : St) (gsub : Option (Layout GsubOut)) : Sub :=
-  let acc : PrivAcc := if f.isCFF then privLoop f s2.glyphs ⟨[], [], []⟩ else ⟨[], [], []⟩
-  { order := s2.glyphs
-    textGlyphs := s1.glyphs
-    glyphs := s2.glyphs.map fun g =>
-      if f.isCFF then f.glyph g else fixComponents s2.newGid (f.glyph g)
-    hasNames := f.hasNames
-    cmaps := f.cmaps.map fun t => t.map fun kc => (kc.1, subCMap s2.newGid kc.2)
-    privates := acc.privates
-    matrices := acc.matrices
-    fdSelect := if f.isCFF then subFdSelect f acc s2.glyphs else []
-    encoding := if f.isCFF then
-        f.encoding.map fun e => e.map fun g => (s2.newGid.lookup g).getD 0
-      else none
-    gidToCID := if f.isCFF then
-        f.gidToCID.map fun t => s2.glyphs.map fun g => t.getD g 0
-      else none
-    gsub := gsub
-    gpos := f.gpos.map fun l => ⟨l.features, l.lookups.map fun subs => subs.map (subPairs s2.newGid)⟩ }
-
-/-- facts about a successful run: `s1` is the subsetter when `SubsetGsub` returns, `s2` at the end -/
-structure RunP (f : Font) (glyphs : List Gid) (o : Order) (sub : Sub) (s1 s2 : St) : Prop where
-  inv1 : Inv s1
-  inv2 : Inv s2
-  ext1 : Ext (St.init glyphs) s1
-  ext2 : Ext s1 s2
-  closed : f.isCFF = false → ∀ g ∈ s2.glyphs, ∀ c ∈ (f.glyph g).comps, c ∈ s2.glyphs
-  cff : f.isCFF = true → s2 = s1
-  glyfRun : f.isCFF = false → closeGlyf f o.pops s1 s1.glyphs = some s2
-  inRange : ∀ g ∈ s2.glyphs, g < f.glyphs.length
-  gsubRun : (f.gsub = none ∧ sub.gsub = none ∧ s1 = St.init glyphs) ∨
-    (∃ l lay, f.gsub = some l ∧ subsetGsub o (St.init glyphs) l = some (s1, lay) ∧ sub.gsub = some lay)
-  eq : sub = assemble f s1 s2 sub.gsub
-
-theorem subset_ok {f : Font} {glyphs : List Gid} {o : Order} {sub : Sub}
-    (hnd : glyphs.Nodup) (h : subset f glyphs o = .ok sub) :
-    ∃ s1 s2, RunP f glyphs o sub s1 s2 := by
-  have h0 := init_inv hnd
-  unfold subset at h
-  simp only at h
-  split at h
-  · cases h
-  · rename_i s1 gsub hg1
-    split at h
-    · cases h
-    · rename_i s2 hs2
-      split at h
-      · cases h
-      · rename_i hrange
-        injection h with h
-        -- GSUB stage
-        have hg : (f.gsub = none ∧ gsub = none ∧ s1 = St.init glyphs) ∨
-            (∃ l lay, f.gsub = some l ∧ subsetGsub o (St.init glyphs) l = some (s1, lay) ∧
-              gsub = some lay) := by
-          cases hgs : f.gsub with
-          | none =>
-            rw [hgs] at hg1; simp only at hg1
-            injection hg1 with hg1
-            left
-            exact ⟨rfl, (congrArg (fun p => p.2) hg1).symm, (congrArg (fun p => p.1) hg1).symm⟩
-          | some l =>
-            rw [hgs] at hg1; simp only at hg1
-            right
-            cases hsg : subsetGsub o (St.init glyphs) l with
-            | none => rw [hsg] at hg1; simp at hg1
-            | some r =>
-              rw [hsg] at hg1; simp only [Option.map_some] at hg1
-              injection hg1 with hg1
-              have e1 : r.1 = s1 := congrArg (fun p => p.1) hg1
-              have e2 : some r.2 = gsub := congrArg (fun p => p.2) hg1
-              exact ⟨l, r.2, rfl, by rw [← e1]; exact hsg, e2.symm⟩
-        have hi1 : Inv s1 ∧ Ext (St.init glyphs) s1 := by
-          rcases hg with ⟨_, _, e⟩ | ⟨l, lay, _, hr, _⟩
-          · rw [e]; exact ⟨h0, Ext.refl _⟩
-          · have := subsetGsub_good h0 hr; exact ⟨this.1, this.2.1⟩
-        -- outline stage
-        have hi2 : Inv s2 ∧ Ext s1 s2 ∧
-            (f.isCFF = false → ∀ g ∈ s2.glyphs, ∀ c ∈ (f.glyph g).comps, c ∈ s2.glyphs) ∧
-            (f.isCFF = true → s2 = s1) := by
-          cases hc : f.isCFF with
-          | true =>
-            rw [hc] at hs2; simp only [if_true] at hs2
-            injection hs2 with hs2; subst hs2
-            exact ⟨hi1.1, Ext.refl _, by simp, fun _ => rfl⟩
-          | false =>
-            rw [hc] at hs2; simp only [Bool.false_eq_true, if_false] at hs2
-            have hd : Done f s1 s1.glyphs := fun g hg hn => absurd hg hn
-            have := closeGlyf_spec f o.pops s1 s1.glyphs s2 hi1.1 hd hs2
-            exact ⟨this.1, this.2.1, fun _ => this.2.2, by simp⟩
-        have hrun : f.isCFF = false → closeGlyf f o.pops s1 s1.glyphs = some s2 := by
-          intro hc; rw [hc] at hs2; simpa using hs2
-        refine ⟨s1, s2, ⟨hi1.1, hi2.1, hi1.2, hi2.2.1, hi2.2.2.1, hi2.2.2.2, hrun, ?_, ?_, ?_⟩⟩
-        · intro g hg'
-          rcases Nat.lt_or_ge g f.glyphs.length with hlt | hge
-          · exact hlt
-          · exfalso; apply hrange
-            rw [List.any_eq_true]; exact ⟨g, hg', by simpa using hge⟩
-        · rw [← h]; exact hg
-        · rw [← h]; rfl
 
 /-! ### meaning of the translated tables -/
 
